@@ -95,6 +95,12 @@ MUTANTS = [
      "                # mark with +1\n                d += 2",
      "                # mark with +1\n                d += 1",
      ['C12', 'C05']),
+    # ---- liveness: the "append more" batch size can become 0, the loop then never ends (slow: every
+    #      hanging run costs the 60 s bound)
+    ('poisson-append-zero-batch', 'pyspike/spikes.py',
+     "    N_append = max(1, int(0.1 * rate * (T_end-T_start)))",
+     "    N_append = int(0.1 * rate * (T_end-T_start))",
+     ['C20']),
     # ---- sub-clauses no seeded change happened to touch
     ('disc-smoothing-fraction', 'pyspike/DiscreteFunc.py',
      "                        y += self.y[j] * (expected_mp - mp_l)/self.mp[j]",
